@@ -1368,8 +1368,9 @@ impl<'s, X: Item> VecExec<'s, $K, X> {
                 }
                 self.st.elements_created += (spec.extras * X::W) as u64;
                 let mut newmodel: Vec<Grp> = Vec::with_capacity(n);
+                let has_zero = spec.result.iter().any(|&r| r == KC_ZERO);
                 for &r in spec.result.iter() {
-                    newmodel.push(if r >= 0 { self.model[r as usize] } else { eg[(-r - 1) as usize] });
+                    newmodel.push(if r == KC_ZERO { Grp::EMPTY } else if r >= 0 { self.model[r as usize] } else { eg[(-r - 1) as usize] });
                 }
                 let mut doomed: Vec<Grp> = Vec::new();
                 for (i, g) in self.model.iter().enumerate() {
@@ -1386,8 +1387,27 @@ impl<'s, X: Item> VecExec<'s, $K, X> {
                 if !doomed.is_empty() {
                     self.st.probes[P_KIND_CONV_TRUNC] += 1;
                 }
-                match guard_nopanic(spec.name, m(OWN_DOOMED), 0, move || <$K as Kind<X>>::v_kind_conv(v, variant, extras)) {
+                // conversions that pad with `T::zero()` create elements (and may destroy them again further
+                // down the chain)
+                match guard_nopanic(spec.name, m(OWN_DOOMED) | m(OWN_FRESH), 0, move || <$K as Kind<X>>::v_kind_conv(v, variant, extras)) {
                     Some(v2) => {
+                        if has_zero {
+                            // a padded position holds a live element that zero() created during this operation
+                            let fresh = tok::fresh_in_op();
+                            for (i, &r) in spec.result.iter().enumerate() {
+                                if r == KC_ZERO {
+                                    let g = <$K as Kind<X>>::v_field(&v2, i).grp();
+                                    if !is_default_live_fresh(&g) || !g.iter().all(|id| fresh.contains(&id)) || newmodel.contains(&g) {
+                                        tok::raise(V5_ORDER, format!("{}: position {} holds ids {:?}, not a fresh element created by zero()", spec.name, i, &g.ids[..g.n as usize]));
+                                        std::mem::forget(v2);
+                                        self.model.clear();
+                                        return true;
+                                    }
+                                    g.set_owner(OWN_MAIN);
+                                    newmodel[i] = g;
+                                }
+                            }
+                        }
                         self.model = newmodel;
                         self.form = Form::V(v2);
                         self.check_form(spec.name);
